@@ -154,6 +154,20 @@ def away(r, vals, eps=1e-7):
     return all(np.min(np.abs(r - v)) > eps for v in vals)
 
 
+def exact_centre(rmax, n):
+    return n % 2 == 0 or np.linspace(-rmax, rmax, n)[n // 2] == 0.0
+
+
+def pick_rmax(rng, n, choices):
+    """r_max for a symmetric grid whose middle point is exactly 0.0 (np.linspace leaves a rounding residue there for
+    about 10 % of the values: finding C11:symmetric-centre-not-exact-zero, exercised by the search)"""
+    for _ in range(200):
+        rmax = float(rng.choice(choices + [float(rng.uniform(1, 50))]))
+        if exact_centre(rmax, n):
+            return rmax
+    return float(choices[0])
+
+
 def correspondence_objects(ctx, rng, ns, n_idx):
     from abel.tools import analytical as an
     qitems = []       # (tag, coq bool expr) evaluated by vm_compute
@@ -163,7 +177,7 @@ def correspondence_objects(ctx, rng, ns, n_idx):
         # ---- StepAnalytical
         for sym in ([True, False] if n % 2 else [False]):
             for _ in range(20):
-                rmax = float(rng.choice([1.0, 2.5, 10.0, float(rng.uniform(1, 50))]))
+                rmax = pick_rmax(rng, n, [1.0, 2.5, 10.0])
                 r1 = float(rng.uniform(0, 0.6 * rmax)); r2 = r1 + float(rng.uniform(0.1, 0.39)) * rmax
                 ratio = float(rng.choice([1.0, 0.8, 0.5])); A0 = float(rng.uniform(-2, 3))
                 S = an.StepAnalytical(n, rmax, r1, r2, A0, ratio, sym)
@@ -184,7 +198,7 @@ def correspondence_objects(ctx, rng, ns, n_idx):
         # ---- GaussianAnalytical
         for sym in [True, False]:
             for _ in range(20):
-                rmax = float(rng.choice([1.0, 5.0, float(rng.uniform(1, 40))]))
+                rmax = pick_rmax(rng, n, [1.0, 5.0])
                 sg = float(rng.uniform(0.1, 0.5)) * rmax; A0 = float(rng.uniform(-2, 3)); ratio = float(rng.choice([2.0, 1.0, 3.5]))
                 G = an.GaussianAnalytical(n, rmax, sg, A0, ratio, sym)
                 if away(G.r, [ratio * sg]):
@@ -213,7 +227,7 @@ def correspondence_objects(ctx, rng, ns, n_idx):
         # ---- Polynomial wrapper (odd n symmetric: mirrored; any n not symmetric) against the C10 model
         if n <= 101:
             for sym in ([True, False] if n % 2 else [False]):
-                rmax = float(rng.choice([4.0, 10.0, float(rng.uniform(2, 20))]))
+                rmax = pick_rmax(rng, n, [4.0, 10.0])
                 half = np.linspace(-rmax, rmax, n)[n // 2:] if sym else np.linspace(0, rmax, n)
                 for _ in range(50):
                     a, b = sorted(float(v) for v in rng.uniform(-0.1 * rmax, 1.05 * rmax, 2))
@@ -319,7 +333,16 @@ def search(ctx, rng, budget):
         ok, detail = run_clause(name, c10.jsonable(args))
         if not ok:
             hits.append(make_hit(name, args, detail, keyf(name, args, detail)))
-    gen_key = lambda name, args, d: 'C11:%s:%s' % (name, d.split('[')[0].split('=')[0][:40])
+    def gen_key(name, args, d):
+        if name in ('step', 'poly_wrapper', 'gaussian'):
+            n, rmax = args[0], args[1]
+            sym = args[6] if name == 'step' else (args[3] if name == 'poly_wrapper' else args[5])
+            if sym and n % 2 and not exact_centre(rmax, n):
+                if name == 'step' and 'must start with 0.0' in d:
+                    return 'C11:symmetric-centre-not-exact-zero'
+                if name == 'poly_wrapper' and d.startswith('func[%d]' % (n // 2)):
+                    return 'C11:symmetric-centre-not-exact-zero'
+        return 'C11:%s:%s' % (name, d.split('[')[0].split('=')[0][:40])
     names = ['Dribinski', 'Gaussian', 'Gerber', 'O2', 'Ominus']
     for it in range(budget):
         n = int(rng.choice([5, 6, 7, 8, 9, 10, 11, 12, 25, 40, 101]))
